@@ -276,5 +276,6 @@ class MetadataPdu(AbstractFileDirectiveBase):
             and self.params.file_size == other.params.file_size
             and self._source_file_name_lv == other._source_file_name_lv
             and self._dest_file_name_lv == other._dest_file_name_lv
-            and self._options == other._options
+            # No options can be given as None or as an empty list; both are packed the same way
+            and (self._options or []) == (other._options or [])
         )
